@@ -1427,6 +1427,19 @@ def rule_capacity(ctx, o):
     return ok, ("capacity <= %d: %s" % (lim, how))
 
 
+def rule_resize(ctx, o):
+    """Vec::resize(new_len, v) panics (capacity overflow) when new_len * size_of::<T>() > isize::MAX"""
+    t = o.call
+    ga = t.get("gargs") or []
+    esz = ga[0]["w"] // 8 if ga and ga[0].get("k") in ("int", "float") else None
+    p = ctx.sy.poly(ctx.an.terms.operand(t["args"][1]))
+    if p is None:
+        return False, "new length not polynomial"
+    lim = ((1 << 63) - 1) // esz if esz else (1 << 40)
+    ok, how = ctx.in_range(o.bb, p, 0, lim)
+    return ok, ("new length <= %d: %s" % (lim, how))
+
+
 def rule_euclid(ctx, o):
     """`a.div_euclid(b)` / `a.rem_euclid(b)` panic when b == 0 (and for signed MIN / -1): proved when b > 0"""
     t = o.call
@@ -1463,7 +1476,7 @@ CALL_RULES.update({
     "Vec::<T, A>::swap_remove": rule_index_lt_len, "Vec::<T, A>::remove": rule_index_lt_len,
     "Vec::<T, A>::split_off": rule_index_le_len, "<impl [T]>::split_at": rule_index_le_len, "<impl str>::split_at": rule_str_split_at,
     "String::truncate": rule_str_split_at, "String::split_off": rule_str_split_at,
-    "Iterator::sum": rule_sum, "Vec::<T>::with_capacity": rule_capacity,
+    "Iterator::sum": rule_sum, "Vec::<T>::with_capacity": rule_capacity, "Vec::<T, A>::resize": rule_resize,
     "<impl u8>::from_str_radix": rule_radix, "<impl u16>::from_str_radix": rule_radix, "<impl u32>::from_str_radix": rule_radix,
 })
 
